@@ -212,7 +212,7 @@ class Ctx:
             s.add(c)
         return s
 
-    def _check(self, extra):
+    def _check(self, extra, want_model=False):
         t0 = time.time()
         s = self._solver()
         s.add(extra)
@@ -222,6 +222,24 @@ class Ctx:
         model = None
         if r == z3.sat:
             model = s.model()
+            if want_model:
+                # prefer a generic counterexample (inputs non-zero and pairwise distinct): replays are more telling
+                s.push()
+                zs = []
+                for p in self.inputs.values():
+                    if isinstance(p, Poly):
+                        try:
+                            zs.append(p.to_z3())
+                        except Exception:
+                            pass
+                for z in zs:
+                    s.add(z != 0)
+                if len(zs) > 1:
+                    s.add(z3.Distinct(*[z3.ToReal(z) if z3.is_int(z) else z for z in zs]))
+                s.set("timeout", min(self.timeout_ms, 3000))
+                if s.check() == z3.sat:
+                    model = s.model()
+                s.pop()
         res = str(r)
         if r == z3.unknown and self.use_cvc5:
             res2 = _cvc5_check(s, self.timeout_ms)
@@ -284,7 +302,7 @@ class Ctx:
                 self.obligations.append(Obligation(name, "discharged", "normal-form", time.time() - t0, detail, None, path, kind))
                 return True
             # constant False on a path: failed iff the path is feasible
-            r, backend, model, dt = self._check(z3.BoolVal(True))
+            r, backend, model, dt = self._check(z3.BoolVal(True), want_model=True)
             if r == "unsat":
                 self.obligations.append(Obligation(name, "discharged", backend + "(path infeasible)", dt, detail, None, path, kind))
                 return True
@@ -292,7 +310,7 @@ class Ctx:
             self.obligations.append(Obligation(name, st, backend, dt, detail, self._model_json(model), path, kind))
             return False
         e = as_z3bool(cond)
-        r, backend, model, dt = self._check(z3.Not(e))
+        r, backend, model, dt = self._check(z3.Not(e), want_model=True)
         if self.both and r in ("sat", "unsat"):
             s = self._solver()
             s.add(z3.Not(e))
@@ -325,7 +343,7 @@ class Ctx:
 
     def feasible_model(self):
         """a model of the current path condition (inputs only) or None"""
-        r, backend, model, dt = self._check(z3.BoolVal(True))
+        r, backend, model, dt = self._check(z3.BoolVal(True), want_model=True)
         if r == "sat":
             return self._model_json(model)
         return None
@@ -371,22 +389,23 @@ class Ctx:
         return Poly.atom(r)
 
     def model_round(self, x: Poly, n):
-        """round(x, n): a value r = j / 10**n with |r - x| <= 0.5 * 10**-n (over-approximates ties)."""
+        """round(x, n) as a *function* of x (congruence: equal arguments give equal results):
+        r = rnd_n(x) / 10**n with rnd_n(x) an integer and |r - x| <= 0.5 * 10**-n (ties left unspecified)."""
         if isinstance(n, Poly):
             n = n.to_python()
         zx = x.to_z3()
+        if z3.is_int(zx):
+            zx = z3.ToReal(zx)
+        f = z3.Function(f"rnd_{n}", z3.RealSort(), z3.IntSort())
+        j = f(zx)
         if n is None:
-            j = self.fresh_int("rnd")
             self.side.append(z3.And(z3.ToReal(j) - zx <= _rv(Fraction(1, 2)), zx - z3.ToReal(j) <= _rv(Fraction(1, 2))))
             return Poly.atom(j, isint=True)
-        j = self.fresh_int("rnd")
         scale = Fraction(10) ** n
         r = z3.ToReal(j) / _rv(scale)
         half = Fraction(1, 2) / scale
         self.side.append(z3.And(r - zx <= _rv(half), zx - r <= _rv(half)))
-        rr = self.fresh_real("round")
-        self.side.append(rr == r)
-        return Poly.atom(rr)
+        return Poly.atom(r)
 
 
 def _z3num(v):
